@@ -348,7 +348,7 @@ def replay_file(cid, path, quiet=False):
 
 # ----------------------------------------------------------------------------- main driver
 
-def run_check(cid, tier, seed, workers=None, n_override=None):
+def run_check(cid, tier, seed, workers=None, n_override=None, sigs_out=None):
     t_start = time.time()
     chk = load_check(cid)
     core.build()
@@ -373,6 +373,10 @@ def run_check(cid, tier, seed, workers=None, n_override=None):
         return 2
 
     execs = sum(r["execs"] for r in results)
+    if sigs_out:
+        # determinism proof: the per-case event-log signatures and verdicts, for diffing between runs
+        with open(sigs_out, "w") as f:
+            json.dump([[r["index"], [s for s, _ in r["sigs"]], [v["signature"] for v in r["violations"]]] for r in results], f)
     allsigs = set()
     nontriv = set()
     faults = {}
@@ -483,6 +487,7 @@ def main(argv):
     ap.add_argument("--cases", type=int)
     ap.add_argument("--workers", type=int)
     ap.add_argument("--quiet", action="store_true")
+    ap.add_argument("--sigs-out")
     a = ap.parse_args(argv)
     cid = a.check.upper()
     seed = int(os.environ.get("VERIF_SEED", DEFAULT_SEED))
@@ -496,7 +501,7 @@ def main(argv):
             return r
         if a.tier not in ("quick", "thorough"):
             raise HarnessError("unknown tier " + a.tier)
-        return run_check(cid, a.tier, seed, a.workers, a.cases)
+        return run_check(cid, a.tier, seed, a.workers, a.cases, a.sigs_out)
     except HarnessError as e:
         print("[fsim] HARNESS ERROR: %s" % e, flush=True)
         return 2
